@@ -40,31 +40,34 @@ Record node := { nd_id : Z; nd_http : Z; nd_tcp : Z; nd_conn : Z }.
 Record ptinfo := { pt_owner : Z; pt_status : Z; pt_ver : Z }.
 Record cat := { dbs : list database; pols : list policy; nodes : list node; ptview : list (Z * list ptinfo);
                 ptnum : Z; ptper : Z; sclean : bool;
+                clampst : bool;   (* code variant, constant: group starts are clamped to models.MinNanoTime (false = today's code) *)
                 max_node : Z; max_sg : Z; max_sh : Z; max_mst : Z; max_ig : Z; max_ix : Z; max_conn : Z }.
 
-Definition init_cat (per : Z) (sc : bool) : cat :=
-  {| dbs := []; pols := []; nodes := []; ptview := []; ptnum := 0; ptper := per; sclean := sc;
+Definition init_cat_v (per : Z) (sc cl : bool) : cat :=
+  {| dbs := []; pols := []; nodes := []; ptview := []; ptnum := 0; ptper := per; sclean := sc; clampst := cl;
      max_node := 0; max_sg := 0; max_sh := 0; max_mst := 0; max_ig := 0; max_ix := 0; max_conn := 0 |}.
+(* today's creation (no clamping) *)
+Definition init_cat (per : Z) (sc : bool) : cat := init_cat_v per sc false.
 
 (* ---- record updates ---- *)
 Definition set_pols (c : cat) (l : list policy) : cat :=
-  {| dbs := dbs c; pols := l; nodes := nodes c; ptview := ptview c; ptnum := ptnum c; ptper := ptper c; sclean := sclean c;
+  {| dbs := dbs c; pols := l; nodes := nodes c; ptview := ptview c; ptnum := ptnum c; ptper := ptper c; sclean := sclean c; clampst := clampst c;
      max_node := max_node c; max_sg := max_sg c; max_sh := max_sh c; max_mst := max_mst c; max_ig := max_ig c;
      max_ix := max_ix c; max_conn := max_conn c |}.
 Definition set_dbs (c : cat) (l : list database) : cat :=
-  {| dbs := l; pols := pols c; nodes := nodes c; ptview := ptview c; ptnum := ptnum c; ptper := ptper c; sclean := sclean c;
+  {| dbs := l; pols := pols c; nodes := nodes c; ptview := ptview c; ptnum := ptnum c; ptper := ptper c; sclean := sclean c; clampst := clampst c;
      max_node := max_node c; max_sg := max_sg c; max_sh := max_sh c; max_mst := max_mst c; max_ig := max_ig c;
      max_ix := max_ix c; max_conn := max_conn c |}.
 Definition set_ptview (c : cat) (l : list (Z * list ptinfo)) : cat :=
-  {| dbs := dbs c; pols := pols c; nodes := nodes c; ptview := l; ptnum := ptnum c; ptper := ptper c; sclean := sclean c;
+  {| dbs := dbs c; pols := pols c; nodes := nodes c; ptview := l; ptnum := ptnum c; ptper := ptper c; sclean := sclean c; clampst := clampst c;
      max_node := max_node c; max_sg := max_sg c; max_sh := max_sh c; max_mst := max_mst c; max_ig := max_ig c;
      max_ix := max_ix c; max_conn := max_conn c |}.
 Definition set_sg_counters (c : cat) (sg sh ig ix : Z) : cat :=
-  {| dbs := dbs c; pols := pols c; nodes := nodes c; ptview := ptview c; ptnum := ptnum c; ptper := ptper c; sclean := sclean c;
+  {| dbs := dbs c; pols := pols c; nodes := nodes c; ptview := ptview c; ptnum := ptnum c; ptper := ptper c; sclean := sclean c; clampst := clampst c;
      max_node := max_node c; max_sg := sg; max_sh := sh; max_mst := max_mst c; max_ig := ig;
      max_ix := ix; max_conn := max_conn c |}.
 Definition set_max_mst (c : cat) (m : Z) : cat :=
-  {| dbs := dbs c; pols := pols c; nodes := nodes c; ptview := ptview c; ptnum := ptnum c; ptper := ptper c; sclean := sclean c;
+  {| dbs := dbs c; pols := pols c; nodes := nodes c; ptview := ptview c; ptnum := ptnum c; ptper := ptper c; sclean := sclean c; clampst := clampst c;
      max_node := max_node c; max_sg := max_sg c; max_sh := max_sh c; max_mst := m; max_ig := max_ig c;
      max_ix := max_ix c; max_conn := max_conn c |}.
 
@@ -316,7 +319,7 @@ Definition find_last {A} (f : A -> bool) (l : list A) : option A := find f (rev 
 
 Definition new_igroup (c : cat) (p : policy) (t eng : Z) : igroup :=
   let s := trunc t (rp_igdur p) in
-  {| ig_id := max_ig c + 1; ig_start := s; ig_end := cell_end s (rp_igdur p); ig_del := false; ig_eng := eng;
+  {| ig_id := max_ig c + 1; ig_start := if clampst c then Z.max s MINNANO else s; ig_end := cell_end s (rp_igdur p); ig_del := false; ig_eng := eng;
      ig_indexes := map (fun i => {| ix_id := max_ix c + 1 + i; ix_owners := [i]; ix_mark := false |}) (zseq 0 (Z.to_nat (ptnum c))) |}.
 
 (* returns the index group to use and whether it is new *)
@@ -335,8 +338,9 @@ Definition clip_hi (l : list sgroup) (eng t e : Z) : Z :=
 Definition new_sgroup (clip : bool) (c : cat) (p : policy) (ig : igroup) (t eng : Z) : sgroup :=
   let s := trunc t (rp_sgdur p) in
   let e := cell_end s (rp_sgdur p) in
+  let s0 := if clampst c then Z.max s MINNANO else s in   (* the first cell of the time domain begins before int64 ns *)
   {| sg_id := max_sg c + 1;
-     sg_start := if clip then clip_lo (rp_sgs p) eng t s else s;
+     sg_start := if clip then clip_lo (rp_sgs p) eng t s0 else s0;
      sg_end := if clip then clip_hi (rp_sgs p) eng t e else e;
      sg_del := false; sg_eng := eng; sg_dur := rp_sgdur p;
      sg_shards := map (fun i => {| sh_id := max_sh c + 1 + i; sh_owners := [i];
@@ -423,7 +427,7 @@ Definition OFFLINE : Z := 3.
 Definition fresh_pt (owner : Z) : ptinfo := {| pt_owner := owner; pt_status := OFFLINE; pt_ver := 1 |}.
 
 Definition set_nodes (c : cat) (l : list node) (mn mc pn : Z) (pv : list (Z * list ptinfo)) : cat :=
-  {| dbs := dbs c; pols := pols c; nodes := l; ptview := pv; ptnum := pn; ptper := ptper c; sclean := sclean c;
+  {| dbs := dbs c; pols := pols c; nodes := l; ptview := pv; ptnum := pn; ptper := ptper c; sclean := sclean c; clampst := clampst c;
      max_node := mn; max_sg := max_sg c; max_sh := max_sh c; max_mst := max_mst c; max_ig := max_ig c;
      max_ix := max_ix c; max_conn := mc |}.
 Definition nd_set_conn (v : Z) (n : node) : node := {| nd_id := nd_id n; nd_http := nd_http n; nd_tcp := nd_tcp n; nd_conn := v |}.
